@@ -770,17 +770,19 @@ class DAGRunConcurrentManager(DAGRunManagerLike):
                 # will be executed again and the function will unlock the descendants in the other branch.
                 to_unlock_descendants = False
 
+            # TODO: Needs to reorganize saving policy for artifact storage
+            # Recurrent markers and errors kept as values inside OneOf subgraphs are not artifacts of the node.
+            # The artifact is saved before the result becomes visible: a consumer woken up by another node could
+            # otherwise use the result and end the run while the store is still busy, and the save would be cancelled.
+            if not is_duplicate_request and not isinstance(result, (Recurrent, BaseException)):
+                await self.ctx.save_node_result(node_id, result)
+
             # The request that executed the node has stored its result. What a duplicate request reads after waiting
             # may already be outdated (None for a result hidden by a recurrent iteration started in the meantime),
             # storing it again would replace the real state of the node.
             if not is_duplicate_request:
                 logger.debug('Save the result "%s" for the node %s', result, node_id)
                 self._node_storage.set_node_result(node_id, result)
-
-            # TODO: Needs to reorganize saving policy for artifact storage
-            # Recurrent markers and errors kept as values inside OneOf subgraphs are not artifacts of the node
-            if not is_duplicate_request and not isinstance(result, (Recurrent, BaseException)):
-                await self.ctx.save_node_result(node_id, result)
 
         finally:
             if not to_unlock_descendants:
